@@ -288,10 +288,9 @@ def execLine2 (w : World) (line : String) : World × String :=
       | some (.total x _) =>
         -- emap sizes the restored table by the entry count: with a gap in the keys the insertion of the keys after the
         -- gap is out of range (a panic in a build with debug assertions); removed slots at the top only leave no gap
-        match Cd.load x.g.n (Cd.saveX x) with
+        match Cd.loadX x.g.n (Cd.saveX x) with      -- Codec/HolesLoad.lean, `loadX_saveX`: a smaller store, or a panic
         | .ok g' => (w.set b (.total ⟨g', []⟩ false), "ok ; " ++ showNats (keys g'))
         | .error .panic => (w.set b .dead, "panic")
-        | .error .invalid => if x.holes.isEmpty then (w.set b .dead, "err") else (w.set b .dead, "panic")
         | .error _ => (w.set b .dead, "err")
       | none => (w, "bad-op")
     | _, _ => (w, "bad-op")
